@@ -4,7 +4,8 @@
 ; ---------------------------------------------------------------------------
 
 ; a strictly ascending integer sequence has gaps of at least one: x[j] - x[i] >= j - i
-(declare-fun ascMark ((Array Int Val) Int) Bool)   ; marker term: "the gap lemma is wanted for A[0..n)"
+(declare-fun ascMark ((Array Int Val) Int) Bool)   ; marker term: "the gap lemma is wanted for A[0..n)" (always true)
+(assert (forall ((A (Array Int Val)) (n Int)) (! (ascMark A n) :pattern ((ascMark A n)))))
 ;@lemma sorted-gap [C05]
 ;@vars (A (Array Int Val)) (n Int) (i Int) (j Int)
 ;@hyp (and (ascMark A n) (<= 0 i) (<= i j) (< j n)
